@@ -16,8 +16,8 @@ ghost var outResp int
 func (ctx *Context) SetOutputResponse(resp protocols.Response)
   trusted
   requires ctx != nil
-  modifies outResp
-  ensures outResp == ifaceVal(resp)
+  modifies outResp, outRespTyp
+  ensures outResp == ifaceVal(resp) && outRespTyp == ifaceTyp(resp)
 
 ufunc ctxInput(c int) int
 func (ctx *Context) GetInputRequest() (req protocols.Request)
@@ -26,4 +26,55 @@ func (ctx *Context) GetInputRequest() (req protocols.Request)
   ensures (req != nil) <==> ctxInput(ref(ctx)) != 0
   ensures ifaceVal(req) == ctxInput(ref(ctx))
   ensures req != nil ==> typeIs(req, "*httpprot.Request") && ifaceVal(req) != 0 && ptr(ifaceVal(req), "*httpprot.Request").Request != nil && ptr(ifaceVal(req), "*httpprot.Request").Request.URL != nil && ptr(ifaceVal(req), "*httpprot.Request").Request.Header != nil
+
+// ---- used by muxInstance.serveHTTP (C01 / C03 / C07) ----
+ghost var handledBy int      // the handler whose Handle ran last
+ghost var handledCount int   // how many handlers ran
+
+func New(span tracing.Span) (ctx *Context)
+  trusted
+  flag allocates
+  modifies outResp
+  ensures ctx != nil && fresh(ctx) && ctx.span == span && outResp == 0
+
+func (ctx *Context) SetRequest(ns string, req protocols.Request)
+  trusted
+  requires ctx != nil
+
+// the response of the default namespace is the response the client will see (single-namespace view)
+// dynamic type of the stored response (other protocols' pipelines could store something else than *httpprot.Response)
+ghost var outRespTyp int
+func (ctx *Context) GetResponse(ns string) (resp protocols.Response)
+  trusted
+  pure
+  requires ctx != nil
+  ensures (resp == nil) <==> outResp == 0
+  ensures ifaceVal(resp) == outResp
+  ensures resp != nil ==> ifaceTyp(resp) == outRespTyp
+
+func (ctx *Context) SetResponse(ns string, resp protocols.Response)
+  trusted
+  requires ctx != nil
+  modifies outResp, outRespTyp
+  ensures outResp == ifaceVal(resp) && outRespTyp == ifaceTyp(resp)
+
+func (ctx *Context) Finish()
+  trusted
+
+func (ctx *Context) Tags() (t string)
+  trusted
+  pure
+
+// the traffic controller maps backend names to pipelines
+ufunc handlerNamed(m int, name string) int
+iface (m MuxMapper) GetHandler(name string) (h Handler, ok bool)
+  trusted
+  pure
+  ensures ok ==> h != nil && ifaceVal(h) != 0 && ifaceVal(h) == handlerNamed(ifaceVal(m), name) && typeIs(h, "*pipeline.Pipeline")
+
+iface (h Handler) Handle(ctx *Context) (result string)
+  trusted
+  modifies outResp, outRespTyp, handledBy, handledCount
+  ensures handledCount == old(handledCount) + 1 && handledBy == ifaceVal(h)
+  ensures an-http-response-left-by-a-pipeline-is-complete: outResp != 0 && outRespTyp == typeTag("*httpprot.Response") ==> allocated(ptr(outResp, "*httpprot.Response")) && ptr(outResp, "*httpprot.Response").Response != nil && ptr(outResp, "*httpprot.Response").Response.Header != nil
 @*/
